@@ -287,7 +287,7 @@ def _sample(case):
 
 SUBS = [
     Sub('relations', oracle, _classify, strategy=lambda tier: _cases(),
-        budget={'quick': 150, 'thorough': 800}, case_timeout=60.0, timeout_is_violation=True,
+        budget={'quick': 150, 'thorough': 3000}, case_timeout=60.0, timeout_is_violation=True,
         fingerprint=lambda c: fingerprint([c['resource'], c['scope']]),
         require_tags=('cycle', 'self-loop', 'exact-duplicate', 'parallel-dc-type',
                       'scope:ext', 'scope:default', 'scope:base+ext')),
